@@ -12,37 +12,49 @@ from .core import Q, Qs, F
 import discretisedfield as df
 
 PID = "C11"
-RULE = ("three streams. 'freqs': scipy fftfreq/rfftfreq for n=1..24 against the model lists. 'mesh': Mesh.fftn(rfft=False/True) "
+RULE = ("four streams. 'freqs': scipy fftfreq/rfftfreq for n=1..24 against the model lists. 'mesh': Mesh.fftn(rfft=False/True) "
         "and Mesh.ifftn(rfft, shape) on 1-4-d meshes (sizes from {1,2,3,4,5,6,8} and up to 40, anisotropic dyadic cells, any "
         "position, random dims/units), every shape probe (none, original, last+-1, zero, wrong length, wrong leading entry, scalar): "
         "accept/reject and n, dims, units, tolerance factor compared exactly, corners exactly in the exact regime (all n and "
-        "cells powers of two) / to 2^-40 otherwise. 'field': every shape over {1,2,3}^d small scopes + random mixes, 1-4 components, "
+        "cells powers of two) / to 2^-40 otherwise. 'kmesh': Mesh.ifftn(rfft, shape) on k-space meshes that did NOT come from Mesh.fftn "
+        "(names and units with, without and with a doubled prefix / reciprocal form, near-miss spellings, names that collide once k_ is "
+        "stripped, any position, 9 shape probes) - accept/reject and the returned mesh against the model - and Mesh.fftn of every "
+        "accepted result against the model. 'field': every shape over {1,2,3}^d small scopes + random mixes, 1-4 components, "
         "integer or Gaussian-integer data, default/custom/'ft_'-prefixed/absent labels, default/empty/custom mapping: fftn, rfftn, "
-        "ifftn (of integer k-space data), irfftn (of Hermitian-consistent integer half spectra, shape none/even/odd) compared with "
-        "the model's symbolic output evaluated at exp(-2 pi i j/n) (1e-11 * l1 norm of the coefficients). Oracle on the real code: "
+        "ifftn (of integer k-space data), irfftn (of integer half spectra, Hermitian-consistent or ARBITRARY - numpy's convention, model "
+        "irfftnNP - shape none/even/odd) compared with the model's symbolic output evaluated at exp(-2 pi i j/n) (1e-11 * l1 norm of the "
+        "coefficients); on small fields also the compositions ifftn().fftn() and irfftn(shape).rfftn() computed symbolically by the model "
+        "end to end (driver op chain) against the real compositions (mesh, labels, mapping, unit, values). Oracle on the real code: "
         "k-cell centres = shifted fftfreq / rfftfreq, reciprocal names/units, direct O(N^2) DFT at the k-mesh's own cell centres, "
-        "round trips (mesh and values, labels, mapping), rfftn = matching half of fftn, zero-frequency cell = plain sum, linearity, "
-        "component-wise. non-trivial = at least 2 cells and non-constant data (field) / at least one axis with >= 2 cells (mesh)")
+        "round trips in both orders (mesh counts and cell sizes, values, labels, mapping), rfftn = matching half of fftn, zero-frequency "
+        "cell = plain sum, linearity, component-wise, irfftn real, rfftn(irfftn G) = G off the self-mirror planes for every G and on "
+        "them for consistent G. non-trivial = at least 2 cells and non-constant data (field) / at least one axis with >= 2 cells (mesh)")
 TRUSTED = ["harness/c11.py + driver JSON glue (cfOfJson builds Poly constants, denseJ prints the non-zero entries of the model function "
            "Poly.dense); final floating-point evaluation of the printed coefficient table with numpy exp(-2 pi i j/n) (eval_coef); that this "
            "table, evaluated exactly at primitive roots, IS the value of the model over the ring is proved (poly_dense_value, "
-           "driver_evaluates_to_model, driver_fftn_is_dft, driver_rfftn_is_dft, driver_ifftn_is_idft)",
+           "driver_evaluates_to_model, driver_irfftn_np_evaluates_to_model, driver_fftn_is_dft, driver_rfftn_is_dft, driver_ifftn_is_idft, "
+           "driver_irfftn_is_idft)",
            "scipy.fft (pocketfft) fftn/ifftn/rfftn/irfftn/fftfreq/rfftfreq and numpy fftshift/ifftshift modelled by their documented contracts "
-           "(the contracts are exercised by this run)"]
+           "(the contracts are exercised by this run); for irfftn on half spectra that are not Hermitian-consistent the contract is numpy's "
+           "convention (imaginary part of the self-mirror entries ignored after the leading axes are inverted = the planes with last index 0 "
+           "and n/2 replaced by their Hermitian part, model symPlanes), exercised by the 'half-spectrum:arbitrary' cases"]
 ASSUMPTIONS = ["theorems about values are over a commutative ring with per-axis root parameters satisfying explicit hypotheses "
                "(w^n=1, w*wi=1, ninv*n=1, orthogonality); exp(-2 pi i/n) in C satisfies them (proved in Lemmas/C11Complex.lean), and the "
-               "driver's formal roots evaluated with the harness's substitution are exactly those complex roots (driver_complex)",
-               "irfftn is modelled on Hermitian-consistent half spectra only (what rfftn produces: rfftn_spectrum_consistent; on them the "
-               "model's irfftn is real: irfftn_returns_real); inputs whose zero/Nyquist planes are not conjugate-symmetric are outside the "
-               "property and are not generated"]
+               "driver's formal roots evaluated with the harness's substitution are exactly those complex roots (driver_complex); over C the "
+               "phases are exp(-+2 pi i k.r) with k the k-cell centre (fftn_is_dft_exp, rfftn_is_dft_exp, ifftn_is_idft_exp)",
+               "irfftn is modelled on EVERY half spectrum (irfftnNP: inverse DFT of the Hermitian extension after the self-mirror planes were "
+               "replaced by their Hermitian part); on Hermitian-consistent half spectra (what rfftn produces: rfftn_output_hermitian_planes) "
+               "it equals the plain inverse DFT of the Hermitian extension (irfftn_np_eq_irfftn); it is real on every input "
+               "(irfftn_np_returns_real); the constant 1/2 enters as a parameter with the hypothesis half*2=1"]
 UNPROVED = ["the floating-point evaluation of exp(-2 pi i j/n) and of the dot product with the printed coefficients (harness eval_coef) and "
-            "the rounding of pocketfft are outside Lean; they are covered by the 1e-11 * l1 comparator only",
-            "irfftn has no one-sum closed form of its own in Lean (fftn, rfftn, ifftn have: fftn_is_dft, rfftn_is_dft, ifftn_is_idft): it is "
-            "the inverse DFT of the Hermitian extension by contract and is tied to the rest by the round trips (irfftn_rfftn, "
-            "rfftn_irfftn_values) and realness (irfftn_returns_real)",
-            "irfftn on half spectra that are not Hermitian-consistent (library-defined behaviour, outside the property) is not modelled",
-            "fftn(ifftn F) = F and rfftn(irfftn G) = G are proved for the arrays (fftn_ifftn_values, rfftn_irfftn_values); the field-level "
-            "statement (meshes, labels of a k-space field that did not come from fftn) is checked by the oracle only"]
+            "the rounding of pocketfft ('to rounding' in the property) are outside Lean; they are covered by the 1e-11 * l1 comparator only",
+            "that pocketfft's c2r step equals the inverse DFT of the Hermitian extension with the two self-mirror planes replaced by their "
+            "Hermitian part is a model DEFINITION (symPlanes, numpy's convention), not derived from a code-shaped c2r recursion (leading "
+            "axes c2c, last axis c2r with the imaginary part of entries 0 and n/2 dropped); it is tied to the library by the correspondence "
+            "check on arbitrary half spectra; the closed forms over the full box and over the stored half spectrum (irfftn_is_idft, "
+            "irfftn_np_is_idft, irfftn_half_sum) are proved from that definition",
+            "Field attribute-name clashes of component labels (hasattr(self, label) in the vdims setter) and non-list shape arguments of "
+            "Field.irfftn (int / ndarray) are not modelled; Mesh.ifftn's int / str shape handling is probed against the real code only"]
 BUDGET = {"quick": 100, "thorough": 1200}
 
 SIZES = [1, 2, 3, 4, 5, 6, 8]
@@ -89,6 +101,10 @@ def cases(rng, tier):
         big = rng.random() < 0.3
         yield dict(kind="mesh", mesh=gen_spec(rng, max_cells=10 ** 6, sizes=(list(range(1, 41)) if big else SIZES)),
                    sub=rng.getrandbits(32))
+    # --- Mesh.ifftn on k-space meshes that did NOT come from Mesh.fftn (names / units with, without and with a doubled prefix,
+    #     names that collide once the prefix is stripped, any position)
+    for _ in range(160 if quick else 1200):
+        yield kmesh_case(rng)
     # --- fields: small scopes exhaustively (every mix of single / even / odd axes)
     for n in range(1, 10):
         yield field_case(rng, gen_spec(rng, n=[n]))
@@ -106,6 +122,18 @@ def cases(rng, tier):
         yield field_case(rng, gen_spec(rng, max_cells=(120 if quick else 200)), nvdim=1)
 
 
+KDIMS = ["x", "y", "z", "k_x", "k_y", "k_z", "k_k_x", "a", "k_a", "kx", "K_x", "k_xk_"]
+KUNITS = ["m", "nm", "(m)$^{-1}$", "(nm)$^{-1}$", "((m)$^{-1}$)$^{-1}$", "(m)", "m)$^{-1}$", "1/m", "(s", "(m)$^{-1}$ "]
+
+
+def kmesh_case(rng):
+    ndim = rng.choice([1, 2, 2, 3, 3, 4])
+    spec = gen_spec(rng, ndim=ndim, max_cells=10 ** 6, sizes=SIZES + [7, 9, 10, 12], exact=rng.random() < 0.3)
+    spec["dims"] = rng.sample(KDIMS, ndim)
+    spec["units"] = [rng.choice(KUNITS) for _ in range(ndim)]
+    return dict(kind="kmesh", mesh=spec, sub=rng.getrandbits(32))
+
+
 def field_case(rng, spec, nvdim=None):
     ndim = len(spec["n"])
     nvdim = nvdim or rng.choice([1, 1, 2, 3, 3, 4, ndim])
@@ -115,7 +143,12 @@ def field_case(rng, spec, nvdim=None):
     mp = rng.choice(["default", "empty", "custom"])
     return dict(kind="field", mesh=spec, nvdim=nvdim, cplx=rng.random() < 0.4, labels=lab, mapping=mp,
                 unit=rng.choice([None, "A/m", "T"]), irshape=rng.choice(["none", "even", "odd"]), sub=rng.getrandbits(32),
-                masked=rng.random() < 0.35)
+                masked=rng.random() < 0.35,
+                # half spectrum handed to irfftn: Hermitian-consistent (what rfftn produces) or arbitrary (library-defined
+                # behaviour: numpy's convention, modelled by irfftnNP)
+                herm=rng.random() < 0.5,
+                # forward o inverse on the k-space fields also run through the model (symbolic, cubic in the cell count)
+                chain=int(np.prod(spec["n"])) * nvdim <= 18 and rng.random() < 0.6)
 
 
 # ------------------------------------------------------------------ helpers
@@ -295,6 +328,49 @@ def _run_impl(case, obs):
         obs["nontrivial"] = max(nlist) >= 2
         return obs
 
+    if case["kind"] == "kmesh":
+        rng = random.Random(case["sub"])
+        obs["m"] = fieldio.mesh_json(m)
+        last = nlist[-1]
+        probes = [(False, None), (True, None), (False, nlist), (True, nlist[:-1] + [2 * (last - 1)]),
+                  (True, nlist[:-1] + [2 * (last - 1) + 1]), (False, nlist[:-1] + [2 * (last - 1) + 1]),
+                  (True, nlist[:-1] + [2 * last]), (True, [x + (1 if i == 0 and nd > 1 else 0) for i, x in enumerate(nlist[:-1])] + [2 * (last - 1)]),
+                  (rng.random() < 0.5, nlist + [1])]
+        stripped = [d[2:] if d.startswith("k_") else d for d in m.region.dims]
+        obs["tags"].append("names:" + ("collide" if len(set(stripped)) < nd else "distinct"))
+        obs["probes"] = []
+        for rf, shp in probes:
+            obs["stage"] = f"Mesh.ifftn(rfft={rf}, shape={shp}) on a k-space mesh that did not come from fftn"
+            st, val = try_(lambda: m.ifftn(rfft=rf, shape=(None if shp is None else list(shp))))
+            rec = dict(rfft=rf, shape=shp, st=st, mesh=(fieldio.mesh_json(val) if st == "ok" else None), back=None)
+            obs["probes"].append(rec)
+            if st != "ok":
+                continue
+            exp_n = list(shp) if shp is not None else (nlist[:-1] + [2 * (last - 1)] if rf and last != 1 else nlist)
+            if [int(x) for x in val.n] != exp_n:
+                fail(f"Mesh.ifftn(rfft={rf}, shape={shp}) returned n={val.n.tolist()} instead of {exp_n}")
+                continue
+            for a in range(nd):
+                e = float(val.region.edges[a])
+                if abs(float(val.region.pmin[a] + val.region.pmax[a])) > 1e-12 * e:
+                    fail(f"Mesh.ifftn(rfft={rf}, shape={shp}): result not centred at the origin")
+                    break
+            # back: the k-mesh of the result has the counts and cell sizes of the k-mesh it was made from
+            obs["stage"] = f"Mesh.fftn(rfft={rf}) of Mesh.ifftn(rfft={rf}, shape={shp})"
+            kb = val.fftn(rfft=rf)
+            rec["back"] = fieldio.mesh_json(kb)
+            check_kmesh(val, kb, rf, fail, f"mesh.ifftn(rfft={rf}, shape={shp}).fftn(rfft={rf})")
+            if rf or exp_n == nlist:   # the counts used are the "original" ones of this k-mesh for this kind of transform
+                if [int(x) for x in kb.n] != nlist:
+                    fail(f"mesh.ifftn(rfft={rf}, shape={shp}).fftn(rfft={rf}) has n={kb.n.tolist()}, the k-mesh n={nlist}")
+                else:
+                    for a in range(nd):
+                        if abs(float(kb.cell[a]) - float(m.cell[a])) > 1e-12 * float(m.cell[a]):
+                            fail(f"mesh.ifftn(rfft={rf}, shape={shp}).fftn(rfft={rf}) has cell {kb.cell.tolist()}, the k-mesh {m.cell.tolist()}")
+                            break
+        obs["nontrivial"] = max(nlist) >= 2
+        return obs
+
     # ---------------- field
     rng = random.Random(case["sub"])
     nv = case["nvdim"]
@@ -334,7 +410,8 @@ def _run_impl(case, obs):
     f = df.Field(m, nvdim=nv, value=arr, unit=case["unit"], **kw)
     snap = f.array.copy()
     obs["f"] = cf_json(f)
-    obs["tags"] += [f"nvdim:{nv}", f"cplx:{case['cplx']}", "labels:" + case["labels"], "mapping:" + case["mapping"]]
+    obs["tags"] += [f"nvdim:{nv}", f"cplx:{case['cplx']}", "labels:" + case["labels"], "mapping:" + case["mapping"],
+                    "chain:" + ("model" if case.get("chain") else "not-run-too-large")]
     named = f.vdims is not None
     res = {}
 
@@ -478,6 +555,10 @@ def _run_impl(case, obs):
         check_back(m, val.mesh, fail, "Field.ifftn mesh (k-mesh of the original)")
         obs["stage"] = "Field.fftn of Field.ifftn"
         fb = val.fftn()
+        res["fftn_ifftn"] = fb
+        check_kmesh(val.mesh, fb.mesh, False, fail, "Field.ifftn().fftn() mesh")
+        if [int(x) for x in fb.mesh.n] != nlist or any(abs(float(fb.mesh.cell[a]) - float(kmesh.cell[a])) > 1e-12 * float(kmesh.cell[a]) for a in range(nd)):
+            fail(f"fftn(ifftn(F)) lives on n={fb.mesh.n.tolist()} cell={fb.mesh.cell.tolist()}, F on n={nlist} cell={kmesh.cell.tolist()}")
         if fb.array.shape == karr.shape and not np.allclose(fb.array, karr, rtol=0, atol=1e-10 * (float(np.abs(karr).sum()) + 1)):
             fail("fftn(ifftn(F)) differs from F")
 
@@ -499,7 +580,9 @@ def _run_impl(case, obs):
             Pm = np.roll(np.flip(Pm, axis=a), 1, axis=a)
         return P + np.conj(Pm)
 
-    if target_last >= 1:
+    consistent = case.get("herm", True)
+    obs["tags"].append("half-spectrum:" + ("consistent" if consistent else "arbitrary"))
+    if target_last >= 1 and consistent:
         G[(slice(None),) * (nd - 1) + (0,)] = herm(G[(slice(None),) * (nd - 1) + (0,)])
         if target_last % 2 == 0 and target_last // 2 < nk[-1]:
             j = target_last // 2
@@ -515,12 +598,27 @@ def _run_impl(case, obs):
         exp_n = nk[:-1] + [target_last]
         if [int(x) for x in val.mesh.n] != exp_n or val.array.shape != (*exp_n, nv):
             fail(f"irfftn(shape={tshape}): mesh n {val.mesh.n.tolist()}, array {val.array.shape}, expected {exp_n}")
-        elif not case["cplx"] or True:
-            # forward real transform of the result returns the half spectrum
+        else:
+            if np.iscomplexobj(val.array) and float(np.abs(np.imag(val.array)).max()) > 0:
+                fail(f"irfftn(shape={tshape}) returned data with a non-zero imaginary part")
+            # forward real transform of the result returns the half spectrum (the property speaks about consistent ones)
             obs["stage"] = "Field.rfftn of Field.irfftn"
-            rr = df.Field(val.mesh, nvdim=nv, value=np.real(val.array)).rfftn()
-            if rr.array.shape == A.shape and not np.allclose(rr.array, A, rtol=0, atol=1e-10 * (float(np.abs(A).sum()) + 1)):
+            rr = val.rfftn()
+            res["rfftn_irfftn"] = rr
+            if [int(x) for x in rr.mesh.n] != nk:
+                fail(f"rfftn(irfftn(G, shape={tshape})) lives on a mesh with n={rr.mesh.n.tolist()}, G on n={nk}")
+            elif consistent and rr.array.shape == A.shape and not np.allclose(rr.array, A, rtol=0, atol=1e-10 * (float(np.abs(A).sum()) + 1)):
                 fail(f"rfftn(irfftn(G, shape={tshape})) differs from the Hermitian-consistent half spectrum G")
+            elif rr.array.shape == A.shape:
+                # off the two self-mirror planes every half spectrum is read back unchanged (rfftn_irfftn)
+                keep = [j for j in range(nk[-1]) if j != 0 and 2 * j != target_last]
+                if keep and not np.allclose(np.take(rr.array, keep, axis=nd - 1), np.take(A, keep, axis=nd - 1), rtol=0,
+                                            atol=1e-10 * (float(np.abs(A).sum()) + 1)):
+                    fail(f"rfftn(irfftn(G, shape={tshape})) differs from G off the planes with last index 0 and n/2")
+            for a in range(nd):
+                if abs(float(rr.mesh.cell[a]) - float(krmesh.cell[a])) > 1e-12 * float(krmesh.cell[a]):
+                    fail(f"rfftn(irfftn(G)) mesh cell {rr.mesh.cell.tolist()} instead of {krmesh.cell.tolist()}")
+                    break
     if not np.array_equal(snap, f.array):
         fail("a transform modified its operand")
     obs["res"] = res
@@ -540,11 +638,21 @@ def model_requests(case, obs):
         for p in obs["probes"]:
             reqs.append(dict(op="mesh_ifftn", mesh=obs[p["tgt"]], rfft=p["rfft"], shape=p["shape"]))
         return reqs
+    if case["kind"] == "kmesh":
+        reqs = []
+        for p in obs["probes"]:
+            reqs.append(dict(op="mesh_ifftn", mesh=obs["m"], rfft=p["rfft"], shape=p["shape"]))
+            if p["st"] == "ok" and p["back"] is not None:
+                reqs.append(dict(op="mesh_fftn", mesh=p["mesh"], rfft=p["rfft"]))
+        return reqs
     reqs = [dict(op="field", kind="fftn", field=obs["f"])]
     if "rfftn" in obs["res"]:
         reqs.append(dict(op="field", kind="rfftn", field=obs["f"]))
     reqs.append(dict(op="field", kind="ifftn", field=obs["kf"]))
     reqs.append(dict(op="field", kind="irfftn", field=obs["krf"], shape=obs["tshape"]))
+    if case.get("chain"):
+        reqs.append(dict(op="chain", kind="ifftn_fftn", field=obs["kf"]))
+        reqs.append(dict(op="chain", kind="irfftn_rfftn", field=obs["krf"], shape=obs["tshape"]))
     return reqs
 
 
@@ -627,6 +735,22 @@ def compare(case, obs, rs):
             elif p["st"] == "ok":
                 cmp_mesh(name, p["mesh"], r["ok"], exact and p["shape"] in (None, obs["m"]["n"]), dis)
         return dis
+    if case["kind"] == "kmesh":
+        it = iter(rs)
+        for p in obs["probes"]:
+            r = next(it)
+            name = f"Mesh.ifftn(rfft={p['rfft']}, shape={p['shape']}) on a k-space mesh"
+            if (p["st"] == "ok") != ("ok" in r):
+                dis.append(f"{name}: impl {p['st']} vs model {'ok' if 'ok' in r else r}")
+            elif p["st"] == "ok":
+                cmp_mesh(name, p["mesh"], r["ok"], False, dis)
+            if p["st"] == "ok" and p["back"] is not None:
+                r2 = next(it)
+                if "ok" not in r2:
+                    dis.append(f"{name}.fftn(): impl ok vs model {r2}")
+                else:
+                    cmp_mesh(name + f".fftn(rfft={p['rfft']})", p["back"], r2["ok"], False, dis)
+        return dis
     it = iter(rs)
 
     def insum(key):
@@ -637,6 +761,9 @@ def compare(case, obs, rs):
         cmp_cf("Field.rfftn", obs["res"]["rfftn"], next(it), dis, insum("f"))
     cmp_cf("Field.ifftn", obs["res"]["ifftn"], next(it), dis, insum("kf"))
     cmp_cf(f"Field.irfftn(shape={obs['tshape']})", obs["res"]["irfftn"], next(it), dis, insum("krf"))
+    if case.get("chain"):
+        cmp_cf("Field.ifftn().fftn()", obs["res"].get("fftn_ifftn"), next(it), dis, insum("kf"))
+        cmp_cf(f"Field.irfftn(shape={obs['tshape']}).rfftn()", obs["res"].get("rfftn_irfftn"), next(it), dis, insum("krf"))
     return dis
 
 
@@ -653,3 +780,4 @@ def search(case, rng):
         spec = gen_spec(rng, max_cells=24)
         yield field_case(rng, spec)
         yield dict(kind="mesh", mesh=spec, sub=rng.getrandbits(32))
+        yield kmesh_case(rng)
